@@ -3,4 +3,4 @@ META = {}
 def queries(tier):
     b = {'TrimLeft': 2, 'UnEscape': 3, 'Hash': 2, 'IsEqual': 2, 'find': 2, 'Dispose': 3, 'resize': 3, 'generateHash': 3, 'Copy': 12, 'stringToNumber': 3,
          'parseExponent': 2, 'HexStringToNumber': 2, 'parseArray|parseObject': 3, 'vf_buf.*': 8, 'ShiftLeft|ShiftRight|Add|Multiply|powerOf.*': 2}
-    return [Query('parse_obj', 'probe_value.cpp', 'h_parse_obj', {}, bounds=b, default_unwind=3, timeout=600, mem_gb=16, default_rec=2)]
+    return [Query('parse_obj', 'probe_value.cpp', 'h_parse_obj', {}, bounds=b, default_unwind=3, timeout=600, mem_gb=16, default_rec=2, stubs={'_ZN6Qentem6MemoryL4CopyIjEEvPvPKvT_': 'vf_copy_stub'})]
